@@ -134,7 +134,7 @@ class Write(Harness):
                           "[0, 120] (more); longer wrapped sequences"}
     assumptions = ("float columns: concrete doubles per skeleton (float_to_strings formats with Python's str(), a symbolic double cannot pass "
                    "through it); the value read back is compared up to a relative 1e-12",
-                   "gzip targets and append mode to an existing file are not covered (file object contract only)")
+                   "append mode is driven through bnp.open with in-memory targets that carry the `mode` attribute of builtin files / GzipFile; compression itself is not encoded")
 
     def skeletons(self, tier, seed):
         out = []
@@ -170,6 +170,11 @@ class Write(Harness):
                         hi = 10 ** 4 if n_int <= 2 else (1200 if n_int <= 4 else 120)
                         sk["int_range"] = [-hi, hi] if tab == "bed3" and n_int <= 4 else [0, hi]
                     out.append(sk)
+        # append mode through bnp.open: a first piece written with mode 'w', the rest with mode 'a', to a plain and to a gzip target
+        # (formats with and without a header); the result must be what one write gives
+        for tab, rows in (("bed3", T["bed3"][2]), ("vcf", T["vcf"][1]), ("fastq", T["fastq"][1])):
+            for suffix in ({"bed3": ".bed", "vcf": ".vcf", "fastq": ".fq"}[tab] + z for z in ("", ".gz")):
+                out.append(dict(table=tab, rows=rows, cuts=[1], append=suffix))
         # a short first record followed by a much wider integer (read-back through the right-aligned digit windows)
         out.append(dict(table="bed3", rows=[[1, 0, 0], [1, 0, 0]], cuts=[], int_range=[0, 1200]))
         # one integer column in narrow windows of LARGE magnitude (around 2^53, at the top of int64, around 10^17: the digit count changes
@@ -207,9 +212,41 @@ class Write(Harness):
             for rows in pieces:
                 w.write(whole if len(rows) == n else whole[(rows[0] if rows else 0):(rows[-1] + 1 if rows else 0)])
             return ctx.file_bytes(f)
+        def write_appending(pieces, suffix):
+            """the pieces written through bnp.open: the first with mode 'w', the others with mode 'a' (plain target or gzip target); the
+            files module's open functions are replaced by in-memory targets that carry the `mode` attribute real file objects have"""
+            import types
+            import bionumpy.io.files as ifiles
+            target = ctx.wfile()
+
+            class Handle:
+                name = "mem"
+
+                def __init__(self, mode):
+                    self.mode = mode
+
+                def write(self, b):
+                    return target.write(b)
+
+                def close(self):
+                    pass
+            real_gzip = ifiles.gzip
+            ifiles.open = lambda fn, mode="rb": Handle(mode)                                   # builtin file objects: mode 'wb' / 'ab'
+            ifiles.gzip = types.SimpleNamespace(open=lambda fn, mode="rb": Handle(real_gzip.WRITE))   # GzipFile.mode is the constant WRITE for both
+            try:
+                for k, rows in enumerate(pieces):
+                    w = ifiles.bnp_open("mem" + suffix, "w" if k == 0 else "a", buffer_type=B)
+                    w.write(whole if len(rows) == n else whole[(rows[0] if rows else 0):(rows[-1] + 1 if rows else 0)])
+                    w.close()
+            finally:
+                del ifiles.open
+                ifiles.gzip = real_gzip
+            return ctx.file_bytes(target)
         single = write([list(range(n))])
         res = dict(single=single)
-        if skel["cuts"]:
+        if skel.get("append"):
+            res["split"] = write_appending(partition(list(range(n)), skel["cuts"]), skel["append"])
+        elif skel["cuts"]:
             res["split"] = write(partition(list(range(n)), skel["cuts"]))
         res["again"] = write([list(range(n))])      # the same table written once more (writing must not change the table)
         # read the written bytes back with the library's reader (composition on the symbolic output)
